@@ -13,6 +13,9 @@ from elexmodel.logger import getModelLogger
 from elexmodel.models import BaseElectionModel
 
 warnings.filterwarnings("error", category=UserWarning, module="cvxpy")
+# newer cvxpy releases attribute their warnings to the module that called cvxpy (the solver), not to a cvxpy module,
+# so the inaccurate solution warning is also matched by its message
+warnings.filterwarnings("error", category=UserWarning, message="Solution may be inaccurate")
 
 PredictionIntervals = namedtuple("PredictionIntervals", ["lower", "upper", "conformalization"], defaults=(None,) * 3)
 
